@@ -66,3 +66,7 @@ Definition chk_space_range (lo n : Z) (spaces : list Z) : bool :=
   | _ => true
   end.
 Definition chk_strip (cases : list (str * str)) : bool := forallb (fun p => str_eqb (py_strip (fst p)) (snd p)) cases.
+
+(* an assignment obj.attr = v to an int attribute of an object currently holding `held` *)
+Definition chk_assign_int (mn mx : option Z) (held v code : Z) : bool :=
+  code_of Z.eqb (attr_set_outcome (int_validate mn mx) held v) v =? code.
